@@ -868,14 +868,25 @@ def ev_sched(case, rec):
         try:
             out = explore_all(True)
         except sched.Divergence as e:
-            raise HarnessError('schedule replay diverged in a pristine interpreter for %r: %s' % (threads, e))
+            # every execution started from a forked copy of the pristine interpreter and followed a recorded prefix of choices: the
+            # harness is deterministic there (asserted on the unchanged tree at every run), so the library's control flow depends on
+            # something that is neither its arguments nor the schedule
+            rec.fail('the same prefix of scheduling choices, replayed in a pristine interpreter, led the library through different code '
+                     '(its control flow depends on hidden state)', site='purity:replay-divergence', observed=str(e)[:300], case=case,
+                     coords={'threads': repr(threads)})
+            rec.outcome('diverged')
+            return
     st = out['st']
     rec.outcome('mode-forked' if forked else 'mode-shared')
     # determinism: the default schedule replayed gives identical observations
     e1 = run_schedule(threads, files, [], opcode)
     e2 = run_schedule(threads, files, list(e1['choices']), opcode)
     if e1['trace'] != e2['trace'] or e1['outcome'] != e2['outcome']:
-        raise HarnessError('replaying a recorded schedule gave different observations: %r' % (threads,))
+        rec.fail('the same schedule executed twice, each time from a pristine interpreter, gives different observations: results are '
+                 'not a function of the arguments and the schedule', site='purity:replay-differs', observed=str(e2['outcome'])[:300],
+                 expected=str(e1['outcome'])[:300], case=case, coords={'threads': repr(threads)})
+        rec.outcome('replay-differs')
+        return
     rec.transitions += st['executions'] * sum(len(c) for c in threads)
     rec.nontriv((repr(threads), case['bound'], opcode, repr(case.get('part'))))
     rec.state(('sched', repr(threads), len(out['outcomes'])))
